@@ -50,6 +50,86 @@ def cfg_label(cfg):
     return ",".join("%s=%s" % (k, v) for k, v in cfg.items() if not k.startswith("_"))
 
 
+def _finish_pass(env, jb, kw, seed, want_props, res, agg, seen_names, S, core, last):
+    """collect one pass of a job: obligations (first occurrence of a name wins), native replay of the refuted ones, the
+    shim cross-check"""
+    agg["functions"] |= set(env.functions)
+    agg["notes"] += [n for n in env.notes if n not in agg["notes"]]
+    agg["assumptions"] |= set(env.assumptions)
+    agg["defined"] += len(S.DEFINED)
+    agg["roundoff"] += env.roundoff
+    for k, v in env.z3_stats.items():
+        agg["z3"][k] = agg["z3"].get(k, 0) + v
+    agg["atoms"] = max(agg["atoms"], len(S.A.names))
+    if env.z3_disagreements:
+        raise RuntimeError("back-end disagreement: z3 finds a point where a discharged identity fails: %s" % env.z3_disagreements[:3])
+    if S.TINY_SEEN:
+        note = "float constants below 1e-40 treated as 0: %s" % sorted(set(S.TINY_SEEN))
+        if note not in agg["notes"]:
+            agg["notes"].append(note)
+    if S.PATH.unexplored:
+        # a decision first met in the body of an env.explore loop: only one side was executed
+        raise RuntimeError("branch on a symbolic value outside path exploration (%d), e.g. %s" % (
+            len(S.PATH.unexplored), repr(S.PATH.unexplored[0])[:200]))
+    # native replay of refuted obligations against the real code
+    for o in env.obls:
+        if o.name in seen_names:
+            continue
+        seen_names.add(o.name)
+        if want_props and not (set(o.prop.split(",")) & set(want_props)):
+            continue
+        for r in o.refuted[:2]:
+            if r.get("entry", 0) is None and "reason" in r and "witness" not in r:
+                continue
+            try:
+                env2 = core.Env("native", witness=r.get("witness") or {}, seed=seed, ranges=jb.ranges)
+                jb.fn(env2, **kw)
+                num = env2.numeric.get(o.name.split(' @path(')[0])
+                if num is None:
+                    # a lemma of the symbolic proof has no native counterpart: the failing input is confirmed when any
+                    # native clause of the same contract fails at the witness
+                    r["native"] = "obligation not reached natively"
+                    import numpy as _np
+                    for nm2, (d2, s2, L2, R2) in env2.numeric.items():
+                        ex = _np.asarray(d2, dtype=float) - core.NATIVE_TOL * (1.0 + _np.asarray(s2, dtype=float))
+                        if ex.size and float(_np.max(ex)) > 0:
+                            r["native"] = "confirmed by the native clause: %s" % nm2
+                            r["native_diff"] = float(_np.max(_np.asarray(d2, dtype=float)))
+                            r["confirmed"] = True
+                            break
+                    continue
+                diff, sc, L, R = num
+                idx = tuple(r["entry"]) if r.get("entry") is not None else ()
+                try:
+                    dv, sv, lv, rv = float(diff[idx]), float(sc[idx]), float(L[idx]), float(R[idx])
+                except (IndexError, TypeError):
+                    # the native clause has another layout than the symbolic one: the entry that fails most clearly
+                    import numpy as _np
+                    ex = _np.asarray(diff, dtype=float) - core.NATIVE_TOL * (1.0 + _np.asarray(sc, dtype=float))
+                    k = _np.unravel_index(_np.argmax(ex), ex.shape) if ex.shape else ()
+                    dv, sv, lv, rv = float(_np.asarray(diff)[k]), float(_np.asarray(sc)[k]), float("nan"), float("nan")
+                r["native_lhs"] = lv
+                r["native_rhs"] = rv
+                r["native_diff"] = dv
+                r["confirmed"] = bool(dv > core.NATIVE_TOL * (1.0 + sv))
+            except Exception as e:           # replay problems never create or hide a violation
+                r["native"] = "replay failed: %s: %s" % (type(e).__name__, e)
+        res["obls"].append(o.asdict())
+    # shim / engine cross-check at a random admissible point (every pass: different branches of the real code)
+    try:
+        xc = core.crosscheck(env, jb, kw, seed)
+    except Exception as e:
+        xc = dict(ok=False, error="%s: %s" % (type(e).__name__, e))
+    old = res.get("crosscheck")
+    if old is None or (old.get("ok", True) and not xc.get("ok", True)):
+        if old is not None and xc.get("ok", True):
+            xc["checked"] = xc.get("checked", 0) + old.get("checked", 0)
+        res["crosscheck"] = xc
+    elif old.get("ok", True):
+        old["checked"] = old.get("checked", 0) + xc.get("checked", 0)
+        old["worst_rel_err"] = max(old.get("worst_rel_err", 0.0), xc.get("worst_rel_err", 0.0))
+
+
 def run_one(args):
     """worker: one (job, configuration)"""
     jobname, ci, seed, want_props = args
@@ -69,75 +149,38 @@ def run_one(args):
     signal.signal(signal.SIGALRM, _alarm)
     signal.alarm(budget)
     try:
-        S.reset()
         from . import helpers
-        helpers.deactivate()
         from . import sx as _sx
-        _sx.SYMBOLIC_PI[0] = True
-        del spshim.SOLVES[:]
-        env = core.Env("sym", seed=seed, ranges=jb.ranges)
-        jb.fn(env, **kw)
-        res["functions"] = sorted(env.functions)
-        res["notes"] = env.notes
-        res["assumptions"] = sorted(env.assumptions)
-        res["defined"] = len(S.DEFINED)
-        res["roundoff"] = env.roundoff
-        res["z3"] = env.z3_stats
-        if env.z3_disagreements:
-            raise RuntimeError("back-end disagreement: z3 finds a point where a discharged identity fails: %s" % env.z3_disagreements[:3])
-        if S.TINY_SEEN:
-            res["notes"] = res["notes"] + ["float constants below 1e-40 treated as 0: %s" % sorted(set(S.TINY_SEEN))]
-        res["atoms"] = len(S.A.names)
-        if S.PATH.unexplored:
-            # a branch on a symbolic value outside env.explore: only one side was executed, nothing was proved for the other
-            raise RuntimeError("branch on a symbolic value outside path exploration (%d), e.g. %s" % (
-                len(S.PATH.unexplored), repr(S.PATH.unexplored[0])[:200]))
-        # native replay of refuted obligations against the real code
-        for o in env.obls:
-            if want_props and not (set(o.prop.split(",")) & set(want_props)):
-                continue
-            for r in o.refuted[:2]:
-                if r.get("entry", 0) is None and "reason" in r and "witness" not in r:
-                    continue
-                try:
-                    env2 = core.Env("native", witness=r.get("witness") or {}, seed=seed, ranges=jb.ranges)
-                    jb.fn(env2, **kw)
-                    num = env2.numeric.get(o.name.split(' @path(')[0])
-                    if num is None:
-                        # a lemma of the symbolic proof has no native counterpart: the failing input is confirmed when any
-                        # native clause of the same contract fails at the witness
-                        r["native"] = "obligation not reached natively"
-                        import numpy as _np
-                        for nm2, (d2, s2, L2, R2) in env2.numeric.items():
-                            ex = _np.asarray(d2, dtype=float) - core.NATIVE_TOL * (1.0 + _np.asarray(s2, dtype=float))
-                            if ex.size and float(_np.max(ex)) > 0:
-                                r["native"] = "confirmed by the native clause: %s" % nm2
-                                r["native_diff"] = float(_np.max(_np.asarray(d2, dtype=float)))
-                                r["confirmed"] = True
-                                break
-                        continue
-                    diff, sc, L, R = num
-                    idx = tuple(r["entry"]) if r.get("entry") is not None else ()
-                    try:
-                        dv, sv, lv, rv = float(diff[idx]), float(sc[idx]), float(L[idx]), float(R[idx])
-                    except (IndexError, TypeError):
-                        # the native clause has another layout than the symbolic one: the entry that fails most clearly
-                        import numpy as _np
-                        ex = _np.asarray(diff, dtype=float) - core.NATIVE_TOL * (1.0 + _np.asarray(sc, dtype=float))
-                        k = _np.unravel_index(_np.argmax(ex), ex.shape) if ex.shape else ()
-                        dv, sv, lv, rv = float(_np.asarray(diff)[k]), float(_np.asarray(sc)[k]), float("nan"), float("nan")
-                    r["native_lhs"] = lv
-                    r["native_rhs"] = rv
-                    r["native_diff"] = dv
-                    r["confirmed"] = bool(dv > core.NATIVE_TOL * (1.0 + sv))
-                except Exception as e:           # replay problems never create or hide a violation
-                    r["native"] = "replay failed: %s: %s" % (type(e).__name__, e)
-            res["obls"].append(o.asdict())
-        # shim / engine cross-check at a random admissible point
-        try:
-            res["crosscheck"] = core.crosscheck(env, jb, kw, seed)
-        except Exception as e:
-            res["crosscheck"] = dict(ok=False, error="%s: %s" % (type(e).__name__, e))
+        # whole-job path exploration: a branch on a symbolic value outside env.explore makes the job run once per decision
+        # script (each pass on a fresh term store); obligations carry the decisions in their names
+        scripts = [[]]
+        seen_names = set()
+        npass = 0
+        agg = dict(functions=set(), notes=[], assumptions=set(), defined=0, roundoff=0, z3={}, atoms=0)
+        while scripts:
+            script = scripts.pop()
+            npass += 1
+            if npass > 48:
+                raise RuntimeError("more than 48 whole-job paths")
+            S.reset()
+            helpers.deactivate()
+            _sx.SYMBOLIC_PI[0] = True
+            del spshim.SOLVES[:]
+            S.PATH.whole = True
+            S.PATH.outer_script = list(script)
+            env = core.Env("sym", seed=seed, ranges=jb.ranges)
+            jb.fn(env, **kw)
+            outer = list(S.PATH.outer_taken)
+            for i in range(len(script), len(outer)):
+                scripts.append([t[2] for t in outer[:i]] + [True])
+            _finish_pass(env, jb, kw, seed, want_props, res, agg, seen_names, S, core, last=not scripts)
+        res["functions"] = sorted(agg["functions"])
+        res["notes"] = agg["notes"] + (["whole-job path exploration: %d passes" % npass] if npass > 1 else [])
+        res["assumptions"] = sorted(agg["assumptions"])
+        res["defined"] = agg["defined"]
+        res["roundoff"] = agg["roundoff"]
+        res["z3"] = agg["z3"]
+        res["atoms"] = agg["atoms"]
     except Exception as e:
         res["error"] = "%s: %s" % (type(e).__name__, e)
         res["trace"] = traceback.format_exc()[-3000:]
